@@ -315,23 +315,34 @@ def ratrecLoop (N : Int) : Nat → Int → Int → Int → Int → Except Err (I
     if n > N then ratrecLoop N f n (n0 % n) d (d0 - (n0 / n) * d)     -- n > N ≥ 0
     else .ok (n, d)
 
-def ratrec (x y : Int) (N D : Option Int) : Except Err (Int × Int) := do
-  let (N, D) ←
-    match N, D with
-    | none, none =>
-      let h := (y - 1) / 2
-      if h < 0 then throw Err.valueError                 -- math.isqrt of a negative number
+/-- ≙ gmpy.py:59-64: the bounds N, D after the defaults have been filled in -/
+def ratrecBounds (y : Int) (N D : Option Int) : Except Err (Int × Int) :=
+  match N, D with
+  | none, none =>
+    let h := (y - 1) / 2
+    if h < 0 then .error .valueError                 -- math.isqrt of a negative number
+    else
       let D : Int := max 1 (Nat.sqrt h.toNat : Nat)
-      pure ((y - 1) / (2 * D), D)
-    | none, some D =>
-      if 2 * D = 0 then throw Err.zeroDivisionError
-      pure (Int.fdiv (y - 1) (2 * D), D)
-    | some N, none =>
-      pure (N, if N ≠ 0 then Int.fdiv (y - 1) (2 * N) else 1)
-    | some N, some D => pure (N, D)
-  if N < 0 ∨ D ≤ 0 ∨ 2 * N * D ≥ y then throw Err.valueError
-  let (n, d) ← ratrecLoop N (y.toNat + 2) x y 1 0
-  let (n, d) := if d < 0 then (-n, -d) else (n, d)
-  if d ≤ D ∧ Int.gcd n d = 1 then pure (n, d) else throw Err.valueError
+      .ok ((y - 1) / (2 * D), D)
+  | none, some D =>
+    if 2 * D = 0 then .error .zeroDivisionError
+    else .ok (Int.fdiv (y - 1) (2 * D), D)
+  | some N, none => .ok (N, if N ≠ 0 then Int.fdiv (y - 1) (2 * N) else 1)
+  | some N, some D => .ok (N, D)
+
+/-- ≙ gmpy.py:65-79 with N, D integers -/
+def ratrecCore (x y N D : Int) : Except Err (Int × Int) :=
+  if N < 0 ∨ D ≤ 0 ∨ 2 * N * D ≥ y then .error .valueError
+  else
+    match ratrecLoop N (y.toNat + 2) x y 1 0 with
+    | .error e => .error e
+    | .ok (n, d) =>
+      let (n, d) := if d < 0 then (-n, -d) else (n, d)
+      if d ≤ D ∧ Int.gcd n d = 1 then .ok (n, d) else .error .valueError
+
+def ratrec (x y : Int) (N D : Option Int) : Except Err (Int × Int) :=
+  match ratrecBounds y N D with
+  | .error e => .error e
+  | .ok (N, D) => ratrecCore x y N D
 
 end MpycV.NumTh
